@@ -584,6 +584,68 @@ func (t *tree) exec(w []string) string {
 				return errStr(err)
 			}
 			return showItems(false, l)
+		case "gschk":
+			// property op: the batched snapshot iterator yields every key of the range exactly once, in order — the same
+			// sequence as the unbatched SnapshotIter and as ForEachInSnapshotRange over the same snapshot
+			if len(w) != 4 {
+				return "bad-op"
+			}
+			lo, ok1 := bt(1)
+			hi, ok2 := bt(2)
+			if !ok1 || !ok2 {
+				return "bad-op"
+			}
+			lo, hi = bnd(lo), bnd(hi)
+			rev := w[3] == "1"
+			gs := t.mb.GetSnapshot()
+			batched, e := drainPlain(gs.BatchedSnapshotIter(lo, hi, rev))
+			if e != "" {
+				return "FAIL batched-iter " + e
+			}
+			var plain []item
+			if rev {
+				plain, e = drainPlain(t.mb.SnapshotIterReverse(hi, lo))
+			} else {
+				plain, e = drainPlain(t.mb.SnapshotIter(lo, hi))
+			}
+			if e != "" {
+				return "FAIL snapshot-iter " + e
+			}
+			var ranged []item
+			if err := gs.ForEachInSnapshotRange(lo, hi, func(k, v []byte) (bool, error) {
+				ranged = append(ranged, item{key: append([]byte{}, k...), val: append([]byte{}, v...), has: true})
+				return false, nil
+			}, rev); err != nil {
+				return "FAIL snapshot-range-error"
+			}
+			for i := 1; i < len(plain); i++ {
+				c := bytes.Compare(plain[i-1].key, plain[i].key)
+				if (!rev && c >= 0) || (rev && c <= 0) {
+					return "FAIL snapshot-iter-order " + showVal(plain[i].key)
+				}
+			}
+			cmp := func(what string, a []item) string {
+				n := len(a)
+				if len(plain) < n {
+					n = len(plain)
+				}
+				for i := 0; i < n; i++ {
+					if !bytes.Equal(a[i].key, plain[i].key) || !bytes.Equal(a[i].val, plain[i].val) {
+						return fmt.Sprintf("FAIL %s #%d got %s want %s", what, i, showVal(a[i].key), showVal(plain[i].key))
+					}
+				}
+				if len(a) != len(plain) {
+					return fmt.Sprintf("FAIL %s count got %d want %d", what, len(a), len(plain))
+				}
+				return ""
+			}
+			if r := cmp("batched-vs-snapshot-iter", batched); r != "" {
+				return r
+			}
+			if r := cmp("range-vs-snapshot-iter", ranged); r != "" {
+				return r
+			}
+			return "ok"
 		case "len":
 			return strconv.Itoa(t.mb.Len())
 		case "size":
